@@ -215,11 +215,11 @@ def check_w1r(case):
             br.id = seam
             try:
                 rules = make_rules()
-                reactor = br.BatchReactor(subs, cache_enabled=case["cache"] is not None, cache_maxsize=case["cache"] or 32768, enable_logging=False)
+                reactor = br.BatchReactor(subs, cache_enabled=case["cache"] is not None, cache_maxsize=case["cache"] or 32768, enable_logging=False, explicit_h=False, implicit_temp=True)
                 out = [r[f"syn_{'bw' if inv else 'fw'}"] for r in reactor.fit(rules, invert=inv)]
                 exp = []
                 for e in subs:
-                    flat = [x for r in rules for x in SynReactor(e, r, invert=inv, strategy="bt").smarts_list]
+                    flat = [x for r in rules for x in SynReactor(e, r, invert=inv, strategy="bt", explicit_h=False, implicit_temp=True).smarts_list]
                     exp.append(dedupe(flat))
                 return ([sorted(map(str, o)) for o in out] == [sorted(map(str, o)) for o in exp], out, exp)
             finally:
@@ -234,7 +234,40 @@ def check_w1r(case):
             if not res[0]:
                 fails.append(Fail("real_engine_batch_differs", f"invert={inv} id choices {choices}: {res[1]}", f"{res[2]}", key_extra=str(inv)))
                 break
+        if results and not any(results[0][1][2]):
+            fails.append(Fail("harness_vacuous", f"invert={inv}: the rules give no reaction on any entry of {subs}", "at least one entry with results"))
     return Outcome(nontrivial=True, outcome="real", fails=fails, transitions=nex)
+
+
+# ------------------------------------------------------------------ W1f: real engine with the rule pre-filter switched on
+W1F_SUBS = SUBSTRATES + ["C=C.Br", "C=CC.Br", "CC=O"]
+W1F_RULES = RULES_RSMI + ["[CH2:1]=[CH2:2].[BrH:3]>>[CH3:1][CH2:2][Br:3]", "[CH3:1][CH:2]=[O:3]>>[CH2:1]=[CH:2][OH:3]"]
+
+
+def gen_w1f(tier, seed):
+    for seq in [(3, 0), (0, 3), (3, 1, 0), (4, 0), (0, 4), (4, 1, 5), (6, 4, 0), (5, 0, 6, 4), (2, 3, 1, 0)]:
+        for engine in ("nx", "turbo", "sing"):
+            yield {"seq": list(seq), "engine": engine}
+
+
+def check_w1f(case):
+    """batches in which a later substrate admits a rule the first one does not, with every rule pre-filter engine: each entry's result is what the entry gives alone with the same settings"""
+    from synkit.Synthesis.Reactor import batch_reactor as br
+
+    subs = [W1F_SUBS[i] for i in case["seq"]]
+    fails = []
+    try:
+        batch = [sorted(map(str, r["syn_fw"])) for r in br.BatchReactor(subs, pre_filter_engine=case["engine"], enable_logging=False, explicit_h=False, implicit_temp=True).fit(list(W1F_RULES))]
+        alone = [sorted(map(str, br.BatchReactor([e], pre_filter_engine=case["engine"], enable_logging=False, explicit_h=False, implicit_temp=True).fit(list(W1F_RULES))[0]["syn_fw"])) for e in subs]
+        plain = [sorted(map(str, br.BatchReactor([e], enable_logging=False, explicit_h=False, implicit_temp=True).fit(list(W1F_RULES))[0]["syn_fw"])) for e in subs]
+    except Exception as e:
+        return Outcome(nontrivial=True, outcome="w1f", fails=[Fail("pre_filter_exception", f"{type(e).__name__}: {e}", "results")], transitions=1)
+    if not any(plain):
+        fails.append(Fail("harness_vacuous", f"no entry of {subs} gives a reaction", "at least one"))
+    if batch != alone:
+        bad = next(i for i, (a, b) in enumerate(zip(batch, alone)) if a != b)
+        fails.append(Fail("pre_filter_batch_differs", f"engine={case['engine']}: entry {bad} ({subs[bad]}) -> {batch[bad]}", f"{alone[bad]} (alone)", key_extra=case["engine"]))
+    return Outcome(nontrivial=any(plain), outcome=f"w1f{int(alone == plain)}", fails=fails, transitions=3)
 
 
 # ------------------------------------------------------------------ W5: validators / balance check under every cut
@@ -380,7 +413,9 @@ def check_w4(w):
 W3_RULES = [
     "[C:1][O:2][H:5].[Cl:3][H:4]>>[C:1][Cl:3].[H:4][O:2][H:5]",
     "[C:1][Cl:2].[N:3][H:4]>>[C:1][N:3].[Cl:2][H:4]",
-    "[CH3:1][C:2](=[O:3])[OH:4].[C:5][OH:6]>>[CH3:1][C:2](=[O:3])[O:6][C:5].[OH2:4]",
+    "[CH3:1][C:2](=[O:3])[O:4][H:7].[C:5][O:6][H:8]>>[CH3:1][C:2](=[O:3])[O:6][C:5].[H:7][O:4][H:8]",
+    # a second rule that fires on the same (acid, alcohol) mixtures as the previous one
+    "[C:5][O:6][H:8].[CH3:1][C:2](=[O:3])[O:4][H:7]>>[CH3:1][C:2]([O:3][H:8])([O:4][H:7])[O:6][C:5]",
 ]
 W3_SEEDS = ["CO", "CCO", "CC(C)O", "Cl", "N", "CC(=O)O"]
 
@@ -391,7 +426,7 @@ def gen_w3(tier, seed):
         seeds = [W3_SEEDS[i] for i in range(n) if mask >> i & 1]
         if len(seeds) < (4 if tier == "quick" else 2):
             continue
-        for rules in ([0, 1], [0, 1, 2]) if tier == "quick" else ([0], [0, 1], [1, 0], [0, 1, 2], [2, 1, 0]):
+        for rules in ([0, 1], [0, 1, 2], [2, 3]) if tier == "quick" else ([0], [0, 1], [1, 0], [0, 1, 2], [2, 1, 0], [2, 3], [3, 2, 0, 1]):
             yield {"seeds": seeds, "rules": rules}
 
 
@@ -445,10 +480,12 @@ def check_w6(case):
 
         entries = [SUBSTRATES[i] for i in (0, 1, 2, 3, 1)]
         rules = RULES_RSMI
-        ref = br.BatchReactor(entries, enable_logging=False).fit(rules)
+        ref = br.BatchReactor(entries, enable_logging=False, explicit_h=False, implicit_temp=True).fit(rules)
+        if not any(r["syn_fw"] for r in ref):
+            fails.append(Fail("harness_vacuous", "the serial batch gives no reaction", "at least one entry with results"))
         for jobs in (2, 4):
             kw = dict(entry_n_jobs=jobs) if case["what"] == "loky_entries" else dict(rule_n_jobs=jobs, parallel_rules=True)
-            got = br.BatchReactor(entries, enable_logging=False, **kw).fit(rules)
+            got = br.BatchReactor(entries, enable_logging=False, explicit_h=False, implicit_temp=True, **kw).fit(rules)
             n += 1
             if [sorted(r["syn_fw"]) for r in got] != [sorted(r["syn_fw"]) for r in ref]:
                 fails.append(Fail("real_pool_differs", f"{case['what']} jobs={jobs}", "same as serial", key_extra=str(jobs)))
@@ -488,6 +525,7 @@ def subchecks(tier, seed):
         Sub("W1_cache_identity", gen_w1, check_w1, key=lambda c: f"{c['seq']}|cache={c['cache']}|inv={c['invert']}", rule=RULE[tier]),
         Sub("W2_batch_cuts", gen_w2, check_w2, key=lambda c: f"{c['mode']}|{c['seq']}|cache={c['cache']}", rule=RULE[tier]),
         Sub("W1r_real_engine", gen_w1r, check_w1r, key=lambda c: f"{c['seq']}|cache={c['cache']}", rule=RULE[tier]),
+        Sub("W1f_rule_pre_filter", gen_w1f, check_w1f, key=lambda c: f"{c['seq']}|{c['engine']}", rule="9 batches over 7 substrates of different chemistry and 4 rules, in which a later substrate admits a rule the first does not x rule pre-filter engines nx / turbo / sing, real rule engine, serial: batch vs each entry alone"),
         Sub("W3_network_expansion", gen_w3, check_w3, key=lambda c: f"{'+'.join(c['seeds'])}|rules{c['rules']}", rule="every seed subset (quick: >=4 of 6 seeds) x rule lists, repeats 2/3, frontier on/off: "
             "SynCRN.build(parallel=True, max_workers 1/2/3/default) with the process pool replaced by an in-process stand-in (pickled copies, ordered map) vs the serial build; non-trivial = more than 16 rule applications attempted"),
         Sub("W4_batched_clustering", gen_w4, check_w4, key=lambda c: f"pool{c}", rule=RULE[tier]),
